@@ -86,14 +86,17 @@ func vsS256c() *pocec.KoblitzCurve {
 	return vsCurve
 }
 func vsScalarBaseMult(c *pocec.KoblitzCurve, k []byte) (*big.Int, *big.Int) {
+	// every caller passes a canonical non-zero scalar (Child checks 0 < IL < n before use, private keys are validated on
+	// parsing); stated as an assumption so that k·G is k itself rather than k mod n
 	x := new(big.Int).SetBytes(k)
-	x.Mod(x, vsS256c().N)
+	vsAssume(x.Sign() != 0 && x.Cmp(vsS256c().N) < 0)
 	return x, big.NewInt(2)
 }
 func vsIsOnCurve(c *pocec.KoblitzCurve, x, y *big.Int) bool { return true }
 func vsAdd(c *pocec.KoblitzCurve, x1, y1, x2, y2 *big.Int) (*big.Int, *big.Int) {
 	x := new(big.Int).Add(x1, x2)
 	x.Mod(x, vsS256c().N)
+	vsAssume(x.Sign() != 0) // A1: a sum of points is the point at infinity with negligible probability
 	return x, big.NewInt(2)
 }
 func vsSerC(p *pocec.PublicKey) []byte {
@@ -110,7 +113,8 @@ func vsParsePK(b []byte, c *pocec.KoblitzCurve) (*pocec.PublicKey, error) {
 }
 func vsPrivKeyFromBytes(c interface{}, pk []byte) (*pocec.PrivateKey, *pocec.PublicKey) {
 	d := new(big.Int).SetBytes(pk)
-	x := new(big.Int).Mod(d, vsS256c().N)
+	vsAssume(d.Cmp(vsS256c().N) < 0) // canonical scalar (see vsScalarBaseMult)
+	x := new(big.Int).Set(d)
 	priv := &pocec.PrivateKey{D: d}
 	priv.PublicKey.X, priv.PublicKey.Y = x, big.NewInt(2)
 	return priv, (*pocec.PublicKey)(&priv.PublicKey)
@@ -118,7 +122,7 @@ func vsPrivKeyFromBytes(c interface{}, pk []byte) (*pocec.PrivateKey, *pocec.Pub
 
 // signatures: Sign(d, h) = (R = d mod N, S = h); Verify accepts iff R is the key's scalar and S the digest
 func vsSign(p *pocec.PrivateKey, h []byte) (*pocec.Signature, error) {
-	return &pocec.Signature{R: new(big.Int).Mod(p.D, vsS256c().N), S: new(big.Int).SetBytes(h)}, nil
+	return &pocec.Signature{R: new(big.Int).Set(p.D), S: new(big.Int).SetBytes(h)}, nil
 }
 func vsVerify(sig *pocec.Signature, h []byte, pub *pocec.PublicKey) bool {
 	return sig.R.Cmp(pub.X) == 0 && sig.S.Cmp(new(big.Int).SetBytes(h)) == 0
